@@ -1,4 +1,6 @@
 """P-PRED: bounded enumeration of acyclic paths with normalised branch atoms."""
+import re
+
 from . import mir, q
 
 
@@ -409,8 +411,10 @@ def decision_rows(F, fid, depth=2, _memo=None):
     B = mir.Body(fn, F)
     rows = []
     for p, atoms in ((p, a) for p in enumerate_paths(B, allow_loops=True) for a in path_atom_alternatives(B, F, p)):
-        # a branch on a constant (a helper's flag parameter after the helper was analysed in place) is decided
-        kept, feasible = [], True
+        # a branch on a constant (a helper's flag parameter after the helper was analysed in place) is decided; so is the test of a
+        # value that was built as one variant on this very path (`mode = None` in the arm of a written-out combinator); and two tests
+        # of the same unmodified parameter cannot disagree
+        kept, feasible, seen_ = [], True, {}
         for d_, v_ in atoms:
             c_ = _const_truth(d_)
             if c_ is not None and isinstance(v_, bool):
@@ -418,6 +422,19 @@ def decision_rows(F, fid, depth=2, _memo=None):
                     feasible = False
                     break
                 continue
+            m_ = re.fullmatch(r"discr\(agg:[A-Za-z0-9_:]*::(\w+)\)", d_)
+            if m_ and isinstance(v_, str):
+                if m_.group(1) not in v_.split("|"):
+                    feasible = False
+                    break
+                continue
+            if d_.startswith(("discr(param:", "val(param:")) and "call" not in d_:
+                if d_ in seen_:
+                    if seen_[d_] != v_:
+                        feasible = False
+                        break
+                    continue
+                seen_[d_] = v_
             kept.append((d_, v_))
         if not feasible:
             continue
